@@ -216,8 +216,8 @@ impl Property for C09 {
     }
     fn budget(&self, tier: Tier) -> u64 {
         match tier {
-            Tier::Quick => 120_000,
-            Tier::Thorough => 1_200_000,
+            Tier::Quick => 500_000,
+            Tier::Thorough => 4_000_000,
         }
     }
     fn generate(&self, seed: u64, run: u64, tier: Tier, _avoid: &BTreeSet<String>) -> MacCase {
